@@ -10,10 +10,13 @@
 (***************************************************************************)
 EXTENDS Contracts, Language, Json, IOUtils
 
-G    == ndJsonDeserialize(IOEnv.GFILE)[1]
+\* a batch of grammars; every record names its grammar by index (one JVM serves many grammars,
+\* JVM start-up being the dominant cost of small jobs)
+Gs   == ndJsonDeserialize(IOEnv.GFILE)
 Recs == ndJsonDeserialize(IOEnv.RFILE)
 
 VARIABLE i
+G == Gs[Recs[i].g]
 Init == i \in 1..Len(Recs)
 Next == UNCHANGED i
 
